@@ -699,3 +699,150 @@ pub fn numformat(path: &str, out_dir: &str) -> Result<Value, String> {
     }
     Ok(rep.finish())
 }
+
+// ------------------------------------------------------------------------------------------
+// C11 text inputs never crash: {tokens: [spelling, ...]}.  A watchdog turns a call that does not
+// return into a reported timeout; progress is checkpointed so that an abort (stack overflow)
+// can be attributed to a slice of cases.
+
+pub fn tokens(path: &str, out_dir: &str, thorough: bool, skip: usize) -> Result<Value, String> {
+    use ironcalc_base::expressions::lexer::LexerMode;
+    use ironcalc_base::expressions::parser::Parser;
+    use ironcalc_base::expressions::types::CellReferenceRC;
+    use ironcalc_base::formatter::format::format_number;
+    use std::sync::atomic::{AtomicU64, Ordering};
+    use std::sync::{Arc, Mutex};
+    let mut rep = Report::new(out_dir)?;
+    let pairs: Vec<(&'static str, &'static str)> = if thorough {
+        let mut v = vec![];
+        for l in crate::formula::LANGS {
+            for loc in crate::formula::LOCALES {
+                v.push((*l, *loc));
+            }
+        }
+        v
+    } else {
+        vec![("en", "en"), ("de", "de"), ("fr", "es")]
+    };
+    let numbers = [0.0, 1.0, -1.0, 0.5, -0.5, 1e-320, 1e308, 9007199254740993.0, f64::NAN, f64::INFINITY, f64::NEG_INFINITY];
+    // watchdog
+    let started = Arc::new(AtomicU64::new(0));
+    let current = Arc::new(Mutex::new(String::new()));
+    let (st2, cur2, od) = (started.clone(), current.clone(), out_dir.to_string());
+    let t0 = std::time::Instant::now();
+    std::thread::spawn(move || loop {
+        std::thread::sleep(std::time::Duration::from_millis(250));
+        let s = st2.load(Ordering::Relaxed);
+        if s > 0 && t0.elapsed().as_millis() as u64 > s + 8000 {
+            let c = cur2.lock().map(|g| g.clone()).unwrap_or_default();
+            let _ = std::fs::write(format!("{}/TIMEOUT.json", od), c);
+            std::process::exit(3);
+        }
+    });
+    let ctx = CellReferenceRC { sheet: "Sheet1".to_string(), row: 1, column: 1 };
+    let f = std::fs::File::open(path).map_err(|e| e.to_string())?;
+    let mut models: Vec<(ironcalc_base::Model, &'static ironcalc_base::locale::Locale, &'static ironcalc_base::language::Language)> = vec![];
+    for (l, loc) in &pairs {
+        models.push((
+            ironcalc_base::Model::new_empty("b", loc, "UTC", l)?,
+            ironcalc_base::locale::get_locale(loc).map_err(|_| "locale")?,
+            ironcalc_base::language::get_language(l).map_err(|_| "language")?,
+        ));
+    }
+    let mut idx = 0usize;
+    for line in std::io::BufReader::new(f).lines() {
+        let line = line.map_err(|e| e.to_string())?;
+        let c: Value = match serde_json::from_str(&line) {
+            Ok(v) => v,
+            Err(_) => continue,
+        };
+        idx += 1;
+        if idx <= skip {
+            continue;
+        }
+        rep.n_cases += 1;
+        let text: String = c["tokens"].as_array().map(|a| a.iter().map(|x| x.as_str().unwrap_or("")).collect::<String>()).unwrap_or_default()
+            .replace("<NUL>", "\0").replace("<TAB>", "\t").replace("<NL>", "\n");
+        if idx % 64 == 1 {
+            let _ = std::fs::write(format!("{}/PROGRESS", out_dir), format!("{idx}"));
+        }
+        if let Ok(mut g) = current.lock() {
+            *g = json!({"text": text, "index": idx}).to_string();
+        }
+        started.store(t0.elapsed().as_millis() as u64 + 1, Ordering::Relaxed);
+        let n_chars = text.chars().count();
+        for (pi, (model, locale, language)) in models.iter_mut().enumerate() {
+            let small = json!({"text": text, "lang": pairs[pi].0, "locale": pairs[pi].1});
+            let mut call = |name: &str, f: &mut dyn FnMut()| {
+                rep.n_checks += 1;
+                if let Ok(mut g) = current.lock() {
+                    *g = json!({"text": text, "index": idx, "call": name, "lang": pairs[pi].0, "locale": pairs[pi].1}).to_string();
+                }
+                if std::panic::catch_unwind(std::panic::AssertUnwindSafe(|| f())).is_err() {
+                    rep.mismatch("C11", "panic", name, small.clone(), String::new());
+                }
+            };
+            let (loc, lang) = (*locale, *language);
+            call("Parser::parse", &mut || {
+                let mut p = Parser::new(vec!["Sheet1".to_string(), "My Sheet".to_string()], vec![], std::collections::HashMap::new(), loc, lang);
+                let _ = p.parse(&text, &ctx);
+            });
+            call("Parser::parse(R1C1)", &mut || {
+                let mut p = Parser::new(vec!["Sheet1".to_string(), "My Sheet".to_string()], vec![], std::collections::HashMap::new(), loc, lang);
+                p.set_lexer_mode(LexerMode::R1C1);
+                let _ = p.parse(&text, &ctx);
+            });
+            // the same two cells for every case, cleared afterwards: nothing accumulates in the workbook
+            let row = 1;
+            call("Model::set_user_input(formula)", &mut || {
+                let _ = model.set_user_input(0, row, 1, format!("={text}"));
+                // a range over whole columns or rows evaluates to an array of a million cells per
+                // column, which takes unbounded time and memory (recorded in DESIGN.md); formulas
+                // with a range operator are parsed and stored but not evaluated here
+                if !text.contains(':') {
+                    model.evaluate();
+                }
+                let _ = model.get_formatted_cell_value(0, row, 1);
+                let _ = model.get_localized_cell_content(0, row, 1);
+            });
+            call("Model::set_user_input(text)", &mut || {
+                let _ = model.set_user_input(0, row, 2, text.clone());
+                model.evaluate();
+                let _ = model.get_formatted_cell_value(0, row, 2);
+                let _ = model.get_localized_cell_content(0, row, 2);
+            });
+            call("Model::range_clear_all", &mut || {
+                let _ = model.range_clear_all(&ironcalc_base::expressions::types::Area { sheet: 0, row: 1, column: 1, width: 2, height: 1 });
+            });
+            call("Model::formula_completion", &mut || {
+                let ftext = format!("={text}");
+                for cur in 0..=(n_chars + 1) {
+                    let _ = model.formula_completion(0, 1, 5, &ftext, cur);
+                }
+            });
+            call("Model::cycle_reference", &mut || {
+                let ftext = format!("={text}");
+                for a in 0..=(n_chars + 1) {
+                    let _ = model.cycle_reference(&ftext, a, a);
+                    let _ = model.cycle_reference(&ftext, 0, a);
+                }
+                let _ = model.cycle_reference(&ftext, n_chars + 5, 0);
+            });
+            if pi == 0 || thorough {
+                call("format_number", &mut || {
+                    for x in numbers {
+                        let _ = format_number(x, &text, loc);
+                    }
+                });
+            }
+        }
+        if rep.samples.len() < 3 && idx % 5000 == 7 {
+            rep.samples.push(json!({"text": text}));
+        }
+        rep.nontrivial.insert(c["tokens"].as_array().map(|a| a.iter().map(|x| x.as_str().unwrap_or("")).collect::<Vec<_>>().join("\u{1}")).unwrap_or_default());
+    }
+    started.store(0, Ordering::Relaxed);
+    let mut v = rep.finish();
+    v["language_locale_pairs"] = json!(pairs.len());
+    Ok(v)
+}
